@@ -1,2 +1,10 @@
 import TlxVerif.Props.C03
-#print axioms TlxVerif.C03.lcp_comm
+#print axioms TlxVerif.C03.sorted_iff_neighbours
+#print axioms TlxVerif.C03.adjLcps_getElem
+#print axioms TlxVerif.C03.lcp_is_longest
+#print axioms TlxVerif.C03.lcp_positions
+#print axioms TlxVerif.C03.insertion_sort_correct
+#print axioms TlxVerif.C03.bucket_step
+#print axioms TlxVerif.C03.border_loop_correct
+#print axioms TlxVerif.C03.multikey_quicksort_correct_partial
+#print axioms TlxVerif.C03.radixsort_CE0_correct_partial
